@@ -30,6 +30,7 @@ class Validation:
         self.features = set()
         self.model_build = None
         self.convex = True
+        self.certified = None
 
     def kinds(self):
         return {d['kind'] for d in self.disc}
@@ -209,6 +210,11 @@ def validate(run, case, model, lazy=True, cache=True, tables_from='model') -> Va
             r = model.ask(l)
             if r != 'ok': raise RuntimeError(f'driver refused line {l!r}: {r}')
         r = model.ask('B_GO')
+        v.certified = r.endswith(' certified')
+        if r.startswith('ok'):
+            if v.convex and not v.certified:
+                v.disc.append(dict(kind='uncertified', at=-1, detail='the static tables of this convex scenario do not pass check_static: the premise static_ok of the scheduler theorems is not established'))
+            r = 'ok'
         v.model_build = r
         impl_build = 'ok'
         if run.build_error is not None:
